@@ -17,6 +17,8 @@ from ..schema import (
     InputObjectType,
     InputValue,
     InterfaceType,
+    ListType,
+    NonNullType,
     ObjectType,
     ScalarType,
     Schema,
@@ -396,7 +398,13 @@ class TypeInfoVisitor(DispatchingVisitor):
 
     def enter_list_value(self, node):
 
-        item_type = unwrap_type(self.input_type) if self.input_type else None
+        # Only unwrap a single list level so nested lists and non-null items
+        # are validated against the actual item type.
+        item_type = self.input_type
+        if isinstance(item_type, NonNullType):
+            item_type = item_type.type
+        if isinstance(item_type, ListType):
+            item_type = item_type.type
 
         self._input_type_stack.append(
             item_type if item_type and is_input_type(item_type) else None
